@@ -10,7 +10,8 @@ class Version(SQLObject):
         del values['dateArchived']
         for _col in self.extraCols:
             del values[_col]
-        self.masterClass.get(self.masterID).set(**values)
+        self.masterClass.get(
+            self.masterID, connection=self._connection).set(**values)
 
     def nextVersion(self):
         version = self.select(
